@@ -21,12 +21,12 @@ static GLOBAL: alloc::CountingAlloc = alloc::CountingAlloc;
 /// (quick runs, thorough multiplier) per property; sized for ~3 s quick / ~2-4 min thorough on 16 cores
 pub fn budget_for(id: &str, tier: vcore::Tier) -> u64 {
     let (q, m): (u64, u64) = match id {
-        "C01" => (1000000, 40),
+        "C01" => (1000000, 20),
         "C02" => (1000000, 40),
         "C03" => (400000, 40),
         "C04" => (500000, 40),
         "C05" => (500000, 40),
-        "C06" => (100000, 40),
+        "C06" => (100000, 12),
         "C09" => (500000, 40),
         "C10" => (600000, 40),
         "C11" => (600000, 40),
@@ -34,7 +34,7 @@ pub fn budget_for(id: &str, tier: vcore::Tier) -> u64 {
         "C13" => (500000, 40),
         "C14" => (80000, 40),
         "C17" => (1000000, 40),
-        "C18" => (80000, 30),
+        "C18" => (80000, 12),
         "C19" => (400000, 40),
         "C20" => (400000, 40),
         _ => (100_000, 20),
